@@ -18,13 +18,13 @@ CHECKS = {
   "For first writes, overwrites, tombstone removals and re-writes with multi-byte UTF-8 keys/metadata: kill before every mutating system call and tear the index append at every byte length; afterwards lookups must show exactly the old or exactly the new state, all other keys the model state, the bucket must decode to the earlier records plus at most the new one, and a generated continuation history must then behave per the model.",
   "Kill model = process death. Post-crash observation runs through the library in the harness process (the library has no in-process state)."),
  "C06": ("exploration", "bounded-exhaustive damage enumeration + seeded random PBT against an independent reference reader; verbatim and sync==async clauses",
-  "Every cut length and every single-bit flip of small buckets, each followed by appends, plus random multi-damage cases (garbage incl. invalid UTF-8 and NUL, inserted lines, duplicated fragments, stripped newlines, torn tails) over histories written by the library and by an independent writer; lookups and listing must equal the fold over the records an independent reference reader accepts, sync == async, every returned entry was written verbatim, and appended records are effective.",
+  "Every cut length and every single-bit flip of small buckets, each followed by appends, plus random multi-damage cases (garbage incl. invalid UTF-8 and NUL, inserted lines, duplicated fragments, stripped newlines, torn tails) over histories written by the library and by an independent writer; lookups and listing must equal the fold over the records an independent reference reader accepts, sync == async, every returned entry was written verbatim, and appended records are effective. After every library append the file must imply what its valid records plus the appended one imply, and hold exactly one more valid record; garbage tails up to 1.1 MiB, garbage lines of 2^k-1 / 2^k / 2^k+1 bytes, records beyond 256 KiB before a torn tail; same-length damage keeps the modification time.",
   "Reference reader written from the C17 statement; checksum-valid ill-formed records are out of the stated damage classes."),
  "C12": ("exploration", "three-way differential PBT (sync / async-std / tokio) over generated programs incl. damage steps + mixed-flavour execution against the reference model",
   "The same generated program (all option combinations, extraction, link_to, removals, raw index calls, damage to content and bucket files between steps) runs in three fresh caches through the _sync API, this build's async runtime and the other runtime (the other build's driver process, step-synchronous); per step the normalised results must be equal and admitted by the model, the final trees must decode to the same records and content; a mixed execution assigns each step a generated flavour and is judged by the model, then read through all three. Two further case kinds without a model: planted odd index records (read side must agree), and programs run in three single-threaded driver processes with a relative cache path and a changing working directory.",
   "The remote flavour is the other build's driver binary; timestamps assigned by the library are blanked after the model judged them."),
  "C13": ("fault_enumeration", "system-call fault injection at every call of each operation under a ptrace supervisor; truthfulness + model sweep + fault-free re-run oracle",
-  "17 victim operations x 2 flavours x 2 builds: a fault-free traced run lists the filesystem system calls of the operation, then every call in turn is made to fail with EIO and a class-specific errno (all applicable errnos and fault pairs in the thorough tier), plus short-write-then-ENOSPC; the call must return, successes must be truthful per the model, 'not found' for a present key is a violation, afterwards every other key/address equals the model, the content tree is valid, and the same call re-run without faults behaves normally.",
+  "17 victim operations x 2 flavours x 2 builds: a fault-free traced run lists the filesystem system calls of the operation, then every call in turn is made to fail with EIO and a class-specific errno (all applicable errnos and fault pairs in the thorough tier), plus short-write-then-ENOSPC; the call must return, successes must be truthful per the model, 'not found' for a present key is a violation, afterwards every other key/address equals the model, the content tree is valid, and the same call re-run without faults behaves normally. The traced process carries on after the faulty call with further writes, a removal and lookups (state a failed call leaves inside the process leaks into those); victims include values another key already holds, writes short of the declared size, a key whose bucket exceeds 1 MiB, the temp area on another filesystem, and a really full tmpfs mounted on the cache (private mount namespace).",
   "Only the stated fault classes are injected; leftovers in the temp area and partial index lines are legal; destination of a failed extraction is not judged."),
  "C14": ("exploration", "model-based stateful PBT with abandonment points incl. mid-flight drop; temp-area drain oracle",
   "Programs interleaving successful writes, rejected commits and writers abandoned after creation / after j chunks / mid-flight (future polled once then dropped) / after flush; the model must be unchanged by them after every step and the temp area must drain (tokio: runtime dropped = pool joined; async-std: polled, two snapshots).",
@@ -57,7 +57,7 @@ CHECKS = {
   "Random histories over <=10 keys sharing <=6 values mixing writes with remove, remove_hash, remove_fully and clear; after every removal every key, every address and the listing are compared with the model, and the content tree must stay valid.",
   "remove_fully / clear follow their documented multi-step semantics (DESIGN.md 4.2)."),
  "C10": ("exploration", "model-based stateful PBT + direct listing-vs-lookup differential",
-  "Random histories (several records per bucket, tombstones anywhere) and bulk histories up to 300 (600 thorough) keys; after every step list_sync is compared both with the model and directly with sync and async lookups of every key.",
+  "Random histories (several records per bucket, tombstones anywhere) and bulk histories up to 300 (600 thorough) keys; after every step list_sync is compared both with the model and directly with sync and async lookups of every key. Fixed families: records of 80..800 KiB, entries whose content is gone or substituted, bucket files that are symbolic links, a filesystem mounted on an index shard (driver process in a private mount namespace), planted odd records.",
   "The empty-cache listing quirk pinned by the repository's own test is treated as the empty listing."),
  "C11": ("exploration", "round-trip PBT over generated metadata values, default-window oracle",
   "Generated keys, 128-bit timestamps, JSON trees, raw bytes and sizes through every keyed write entry point and raw index insert of both flavours; lookups and listing items must return every field unchanged; default timestamp must fall inside the clock window of the call, default size must be the byte count.",
